@@ -96,6 +96,20 @@ Example C09_meek_prf_overelects_refuted :
   end.
 Proof. vm_compute. split; reflexivity. Qed.
 
+(* ... and FALSE for the generic meek rule under fixed-point arithmetic as well (open findings K22/K23; guarded with guard 0 is the
+   same count by C13): the symmetric profile with multiplier 1795 -- found by a directed search once K20 was understood. *)
+Definition k22_profile : profile :=
+  mkProfile 3 3703
+    [mkPcand 1 1 1 "W1" "1" false false; mkPcand 2 2 2 "W2" "2" false false; mkPcand 3 3 3 "A" "3" false false;
+     mkPcand 4 4 4 "B" "4" false false; mkPcand 5 5 5 "C" "5" false false]
+    [(1795, [1; 2; 3]); (1795, [2; 1; 4]); (20, [3]); (20, [4]); (73, [5])] [].
+Example C09_meek_fixed_overelects_refuted :
+  match run_count (Fixed 9 9) (mkConfig "meek" MMeek 3 3703 false false true false 6) (2 ^ 20)%positive RMeek k22_profile with
+  | Done s false => nlen (electeds _ s) = 4 /\ map (@cid _) (defeateds _ s) = [5]
+  | _ => False
+  end.
+Proof. vm_compute. split; reflexivity. Qed.
+
 (* ---- ... for every ballot file the reader accepts (see Props/C02.v for the reading of parse_file / to_count_profile) ---- *)
 From Droop Require Import Model.KernelBase Model.Profile Model.EndToEnd Proofs.EndToEndLink.
 
